@@ -7,16 +7,18 @@
         operand is an exact integer, t / (N (N-1)) is EXACTLY N + 1, the factor is
         exactly 0, and so is sigma  (sigma_zero_all_equal).
     (b) at least two runs: t <= (N-2)(N-1)N, so the quotient rounds to at most
-        N - 1, the factor is at least 2 and sigma >= 1/4 — for every N <= 2^26,
-        by monotonicity of rounding (sigma_pos_two_runs).
+        N - 1, the factor is at least 2 and sigma >= 1/4 — for every N <= 2^52,
+        by monotonicity of rounding and one relative error each for float64(t) and
+        float64(N(N-1)) (sigma_pos_two_runs).
     (c) FINDING. Beyond N^3 - N >= 2^53 float64(t) is rounded and the cancellation
         in (a) is no longer guaranteed: it holds by luck up to N = 330283
         (sigma_zero_all_equal_to_330283, exhaustive evaluation) and FAILS at
         N = 330284 (sigma = 0.36.., a p-value is returned for 330284 equal values)
         and N = 330292 (factor negative, sigma = NaN, p = NaN, error = nil):
-        sigma_all_equal_refuted, err_samples_equal_large_refuted. Confirmed on
-        the real code (hooks/fix_c11_utest_samples_equal_large.diff repairs it by
-        testing len(T) == 1 before the exact/approximate switch).
+        sigma_all_equal_refuted, err_samples_equal_large_refuted (about [mwu_old]).
+        Confirmed on the code before hooks/fix_c11_utest_samples_equal_large.diff, which
+        tests len(T) == 1 before the exact/approximate switch; the model [mwu] follows
+        the repaired code, for which err_samples_equal_iff holds in both regimes.
 
     Real-number axioms of the standard library (through Flocq) are used. *)
 From Coq Require Import ZArith List Bool Reals Lia Lra Permutation.
@@ -147,74 +149,105 @@ Proof. intros H Hk. rewrite <- (rnd_int k Hk). now apply rnd_mono. Qed.
 Lemma rnd_ge_int a k : (IZR k <= a)%R -> Z.abs k < 2 ^ 53 -> (IZR k <= rnd a)%R.
 Proof. intros H Hk. rewrite <- (rnd_int k Hk). now apply rnd_mono. Qed.
 
-(** float64(t) <= (N-1) N (N-1) when 0 <= t <= (N-2)(N-1)N: one relative rounding error *)
-Lemma rnd_t_bound N t : 2 <= N <= 2 ^ 26 -> 0 <= t <= (N - 2) * (N * (N - 1)) ->
-  (0 <= rnd (IZR t) <= IZR (N - 1) * IZR (N * (N - 1)))%R.
+(** one rounding: relative error at most 2^-53 *)
+Definition eps53 : R := (/ IZR (2 ^ 53))%R.
+
+Lemma eps53_bounds : (0 < eps53 < 1)%R.
 Proof.
-  intros HN Ht. split; [apply rnd_nonneg, IZR_le; lia|].
-  destruct (Z.eq_dec t 0) as [->|Hnz].
-  - rewrite rnd_0. rewrite <- mult_IZR. apply IZR_le. nia.
-  - assert (H1 : (1 <= IZR t)%R) by (apply IZR_le; lia).
-    destruct (relative_error_N_FLT_ex radix2 (-1074) 53 ltac:(reflexivity) (fun x => negb (Z.even x)) (IZR t)) as (eps & He & Hr).
-    { rewrite Rabs_pos_eq by lra. apply Rle_trans with (2 := H1).
-      change 1%R with (bpow radix2 0). apply bpow_le. lia. }
-    change (round radix2 (FLT_exp (-1074) 53) (Znearest (fun x => negb (Z.even x))) (IZR t)) with (rnd (IZR t)) in Hr.
-    rewrite Hr.
-    assert (He' : (eps <= / 2 * bpow radix2 (-53 + 1))%R) by (apply Rle_trans with (2 := He); apply Rle_abs).
-    assert (Hb : (/ 2 * bpow radix2 (-53 + 1) = / IZR (2 ^ 53))%R).
-    { change (bpow radix2 (-53 + 1)) with (/ IZR (2 ^ 52))%R.
-      replace (2 ^ 53) with (2 * 2 ^ 52) by reflexivity. rewrite mult_IZR.
-      assert (IZR (2 ^ 52) <> 0)%R by (apply not_0_IZR; discriminate). field. assumption. }
-    rewrite Hb in He'.
-    set (D := N * (N - 1)) in *.
-    assert (HD : (0 < IZR D)%R) by (apply IZR_lt; unfold D; nia).
-    assert (HtD : (IZR t <= IZR (N - 2) * IZR D)%R) by (rewrite <- mult_IZR; apply IZR_le; lia).
-    assert (HN2 : (0 <= IZR (N - 2) <= IZR (2 ^ 53))%R).
-    { split; apply IZR_le; [lia|]. assert (2 ^ 26 <= 2 ^ 53) by (apply Z.pow_le_mono_r; lia). lia. }
-    assert (HP : (0 < IZR (2 ^ 53))%R) by (apply IZR_lt; reflexivity).
-    rewrite minus_IZR in *.
-    (* t (1 + eps) <= t + t / 2^53 <= (N-2) D + D *)
-    assert (Hte : (IZR t * eps <= IZR t * / IZR (2 ^ 53))%R) by (apply Rmult_le_compat_l; lra).
-    assert (Htp : (IZR t * / IZR (2 ^ 53) <= IZR D)%R).
-    { apply Rle_trans with ((IZR N - 2) * IZR D * / IZR (2 ^ 53))%R.
-      - apply Rmult_le_compat_r; [apply Rlt_le, Rinv_0_lt_compat, HP | exact HtD].
-      - replace ((IZR N - 2) * IZR D * / IZR (2 ^ 53))%R with (IZR D * ((IZR N - 2) * / IZR (2 ^ 53)))%R by ring.
-        rewrite <- (Rmult_1_r (IZR D)) at 2. apply Rmult_le_compat_l; [lra|].
-        apply Rmult_le_reg_r with (IZR (2 ^ 53)); [exact HP|].
-        rewrite Rmult_assoc, Rinv_l, Rmult_1_r, Rmult_1_l by lra. lra. }
-    replace (IZR 2) with 2%R in * by reflexivity. replace (IZR 1) with 1%R by reflexivity. nra.
+  unfold eps53. assert (1 < IZR (2 ^ 53))%R by (apply IZR_lt; reflexivity). split.
+  - apply Rinv_0_lt_compat. lra.
+  - rewrite <- Rinv_1. apply Rinv_lt_contravar; lra.
 Qed.
 
-(** (b) two or more runs: the factor is at least 2 *)
-Lemma factor_ge_two N t : 2 <= N <= 2 ^ 26 -> 0 <= t <= (N - 2) * (N * (N - 1)) ->
+Lemma rnd_rel x : (1 <= x)%R -> (x * (1 - eps53) <= rnd x <= x * (1 + eps53))%R.
+Proof.
+  intros Hx.
+  destruct (relative_error_N_FLT_ex radix2 (-1074) 53 ltac:(reflexivity) (fun z => negb (Z.even z)) x) as (eps & He & Hr).
+  { rewrite Rabs_pos_eq by lra. apply Rle_trans with (2 := Hx).
+    change 1%R with (bpow radix2 0). apply bpow_le. lia. }
+  change (round radix2 (FLT_exp (-1074) 53) (Znearest (fun z => negb (Z.even z))) x) with (rnd x) in Hr.
+  rewrite Hr.
+  assert (Hb : (/ 2 * bpow radix2 (-53 + 1) = eps53)%R).
+  { change (bpow radix2 (-53 + 1)) with (/ IZR (2 ^ 52))%R. unfold eps53.
+    replace (2 ^ 53) with (2 * 2 ^ 52) by reflexivity. rewrite mult_IZR.
+    assert (IZR (2 ^ 52) <> 0)%R by (apply not_0_IZR; discriminate). field. assumption. }
+  assert (He' : (Rabs eps <= eps53)%R) by (rewrite <- Hb; exact He). apply Rabs_le_inv in He'.
+  split; apply Rmult_le_compat_l; lra.
+Qed.
+
+Lemma bpow_format e : -1074 <= e -> generic_format radix2 (SpecFloat.fexp 53 1024) (bpow radix2 e).
+Proof. intros He. change (SpecFloat.fexp 53 1024) with (FLT_exp (-1074) 53). now apply generic_format_FLT_bpow. Qed.
+
+Lemma rnd_bpow e : -1074 <= e -> rnd (bpow radix2 e) = bpow radix2 e.
+Proof. intros He. apply round_generic; [typeclasses eauto | now apply bpow_format]. Qed.
+
+Lemma rnd_le_bpow x e : -1074 <= e -> (x <= bpow radix2 e)%R -> (rnd x <= bpow radix2 e)%R.
+Proof. intros He Hx. rewrite <- (rnd_bpow e He). now apply rnd_mono. Qed.
+
+Lemma small_bpow r e : e <= 1000 -> (Rabs r <= bpow radix2 e)%R -> small r.
+Proof. intros He H. unfold small. apply Rle_trans with (1 := H). now apply bpow_le. Qed.
+
+(** (b) two or more runs: the factor is at least 2, for every N up to 2^52.
+    float64(t) <= t (1 + 2^-53), float64(N (N-1)) >= N (N-1) (1 - 2^-53) and
+    t <= (N-2) N (N-1), so the quotient is at most N - 1 before and after rounding *)
+Lemma factor_ge_two N t : 2 <= N <= 2 ^ 52 -> 0 <= t <= (N - 2) * (N * (N - 1)) ->
   exists r, fin (factor N t) r /\ (2 <= r <= IZR (N + 1))%R.
 Proof.
   intros HN Ht.
-  assert (P26 : 2 ^ 26 * 2 ^ 26 < 2 ^ 53) by reflexivity.
-  assert (HNN : N * (N - 1) < 2 ^ 53) by nia.
+  assert (P52 : 2 ^ 52 + 1 < 2 ^ 53) by reflexivity.
   pose proof (fin_of_Z_exact N ltac:(lia)) as FN.
   pose proof (fin_add_int _ _ _ _ FN fin_one ltac:(lia)) as FNp1.
   pose proof (fin_sub_int _ _ _ _ FN fin_one ltac:(lia)) as FNm1.
-  pose proof (fin_mul_int _ _ _ _ FN FNm1 ltac:(nia)) as FD.
-  destruct (rnd_t_bound N t HN Ht) as [Ht0 Ht1].
-  assert (HD : (0 < IZR (N * (N - 1)))%R) by (apply IZR_lt; nia).
+  pose proof eps53_bounds as He.
+  set (a := IZR N).
+  assert (Ha : (2 <= a <= IZR (2 ^ 52))%R) by (unfold a; split; apply IZR_le; lia).
+  assert (Em1 : IZR (N - 1) = (a - 1)%R) by (unfold a; rewrite minus_IZR; reflexivity).
+  assert (Ep1 : IZR (N + 1) = (a + 1)%R) by (unfold a; rewrite plus_IZR; reflexivity).
+  set (D := (a * (a - 1))%R).
+  assert (HD : (2 <= D <= bpow radix2 104)%R).
+  { unfold D. split; [nra|]. replace 104 with (52 + 52) by reflexivity. rewrite bpow_plus.
+    change (bpow radix2 52) with (IZR (2 ^ 52)). apply Rmult_le_compat; lra. }
+  pose proof (fin_mul _ _ _ _ FN FNm1) as FD. rewrite Em1 in FD. fold a D in FD.
+  specialize (FD ltac:(apply small_bpow with 104; [lia | rewrite Rabs_pos_eq; lra])).
+  destruct (rnd_rel D ltac:(lra)) as [HD1 _]. set (Dh := rnd D) in *.
+  assert (HDh : (0 < Dh)%R) by nra.
+  (* float64(t) *)
   assert (Ft : fin (b64_of_Z t) (rnd (IZR t))).
-  { apply fin_of_Z. apply small_int. assert (2 ^ 26 * (2 ^ 26 * 2 ^ 26) <= 2 ^ 1000) by (vm_compute; discriminate). nia. }
+  { apply fin_of_Z. apply small_int. assert (2 ^ 52 * (2 ^ 52 * 2 ^ 52) <= 2 ^ 1000) by (vm_compute; discriminate). nia. }
+  assert (HtD : (0 <= IZR t <= (a - 2) * D)%R).
+  { split; [apply IZR_le; lia|]. unfold D, a. replace 2%R with (IZR 2) by reflexivity. replace 1%R with (IZR 1) by reflexivity.
+    rewrite <- !minus_IZR, <- !mult_IZR. apply IZR_le. lia. }
+  assert (He1 : ((2 * a - 3) * eps53 <= 1)%R).
+  { unfold eps53. assert (HP : (0 < IZR (2 ^ 53))%R) by (apply IZR_lt; reflexivity).
+    apply Rmult_le_reg_r with (IZR (2 ^ 53)); [exact HP|].
+    rewrite Rmult_assoc, Rinv_l, Rmult_1_r, Rmult_1_l by lra.
+    replace (2 ^ 53) with (2 * 2 ^ 52) by reflexivity. rewrite mult_IZR. replace (IZR 2) with 2%R by reflexivity. lra. }
+  assert (Hth : (0 <= rnd (IZR t) <= (a - 1) * Dh)%R).
+  { split; [apply rnd_nonneg; lra|].
+    destruct (Z.eq_dec t 0) as [->|Hnz]; [rewrite rnd_0; nra|].
+    assert (H1 : (1 <= IZR t)%R) by (apply IZR_le; lia).
+    destruct (rnd_rel (IZR t) H1) as [_ Hu].
+    assert (S1 : (IZR t * (1 + eps53) <= (a - 2) * D * (1 + eps53))%R) by (apply Rmult_le_compat_r; lra).
+    assert (S2 : ((a - 2) * D * (1 + eps53) <= (a - 1) * D * (1 - eps53))%R).
+    { replace ((a - 1) * D * (1 - eps53))%R with ((a - 2) * D * (1 + eps53) + D * (1 - (2 * a - 3) * eps53))%R by ring.
+      assert (0 <= D * (1 - (2 * a - 3) * eps53))%R by (apply Rmult_le_pos; lra). lra. }
+    assert (S3 : ((a - 1) * D * (1 - eps53) <= (a - 1) * Dh)%R).
+    { rewrite Rmult_assoc. apply Rmult_le_compat_l; lra. }
+    lra. }
   (* the quotient lies in [0, N-1] *)
-  assert (Hq : (0 <= rnd (IZR t) / IZR (N * (N - 1)) <= IZR (N - 1))%R).
+  assert (Hq : (0 <= rnd (IZR t) / Dh <= a - 1)%R).
   { split.
-    - apply Rmult_le_pos; [exact Ht0 | apply Rlt_le, Rinv_0_lt_compat, HD].
-    - apply Rmult_le_reg_r with (IZR (N * (N - 1))); [exact HD|].
-      unfold Rdiv. rewrite Rmult_assoc, Rinv_l, Rmult_1_r by lra. exact Ht1. }
+    - apply Rmult_le_pos; [lra | apply Rlt_le, Rinv_0_lt_compat, HDh].
+    - apply Rmult_le_reg_r with Dh; [exact HDh|].
+      unfold Rdiv. rewrite Rmult_assoc, Rinv_l, Rmult_1_r by lra. lra. }
   pose proof (fin_div _ _ _ _ Ft FD ltac:(lra)) as Fq.
-  assert (Hsq : small (rnd (IZR t) / IZR (N * (N - 1)))).
-  { apply small_le with (N - 1); [rewrite Rabs_pos_eq; lra|]. pose proof pow53_le_1000. lia. }
+  assert (Hsq : small (rnd (IZR t) / Dh)).
+  { apply small_le with (2 ^ 52); [rewrite Rabs_pos_eq; lra|]. apply Z.pow_le_mono_r; lia. }
   specialize (Fq Hsq).
-  set (q := rnd (rnd (IZR t) / IZR (N * (N - 1)))) in *.
-  assert (Hq' : (0 <= q <= IZR (N - 1))%R).
-  { unfold q. split; [apply rnd_nonneg; lra | apply rnd_le_int; [lra | lia]]. }
-  assert (Hd : (2 <= IZR (N + 1) - q <= IZR (N + 1))%R).
-  { rewrite plus_IZR. rewrite minus_IZR in Hq'. replace (IZR 1) with 1%R in * by reflexivity. lra. }
+  set (q := rnd (rnd (IZR t) / Dh)) in *.
+  assert (Hq' : (0 <= q <= a - 1)%R).
+  { unfold q. split; [apply rnd_nonneg; lra|]. rewrite <- Em1. apply rnd_le_int; [rewrite Em1; lra | lia]. }
+  assert (Hd : (2 <= IZR (N + 1) - q <= IZR (N + 1))%R) by (rewrite Ep1; lra).
   pose proof (fin_sub _ _ _ _ FNp1 Fq) as Ff.
   assert (Hsf : small (IZR (N + 1) - q)).
   { apply small_le with (N + 1); [rewrite Rabs_pos_eq; lra|]. pose proof pow53_le_1000. lia. }
@@ -224,37 +257,24 @@ Proof.
   - apply rnd_le_int; [lra | lia].
 Qed.
 
-Lemma bpow_format e : -1074 <= e -> generic_format radix2 (SpecFloat.fexp 53 1024) (bpow radix2 e).
-Proof. intros He. change (SpecFloat.fexp 53 1024) with (FLT_exp (-1074) 53). now apply generic_format_FLT_bpow. Qed.
-
-Lemma rnd_bpow e : -1074 <= e -> rnd (bpow radix2 e) = bpow radix2 e.
-Proof. intros He. apply round_generic; [typeclasses eauto | now apply bpow_format]. Qed.
-
-(** from a factor in [2, N+1] to sigma >= 1/4 *)
-Lemma sigma_tail_pos P f r : 1 <= P < 2 ^ 53 -> fin f r -> (2 <= r <= IZR (2 ^ 27))%R ->
-  b64_eq (b64_sqrt (b64_div (b64_mul (b64_of_Z P) f) b64_twelve)) b64_zero = false.
+(** from a factor in [2, 2^54] and 1 <= float64(n1 n2) <= 2^110 to sigma >= 1/4 *)
+Lemma sigma_tail_pos Pf p f r : fin Pf p -> (1 <= p <= bpow radix2 110)%R ->
+  fin f r -> (2 <= r <= bpow radix2 54)%R ->
+  b64_eq (b64_sqrt (b64_div (b64_mul Pf f) b64_twelve)) b64_zero = false.
 Proof.
-  intros HP Ff Hr.
-  pose proof (fin_of_Z_exact P ltac:(lia)) as FP.
-  assert (HP1 : (1 <= IZR P <= IZR (2 ^ 53))%R) by (split; apply IZR_le; lia).
-  assert (Hpr : (2 <= IZR P * r <= IZR (2 ^ 80))%R).
-  { replace (2 ^ 80) with (2 ^ 53 * 2 ^ 27) by reflexivity. rewrite mult_IZR.
-    assert (0 < IZR (2 ^ 27))%R by (apply IZR_lt; reflexivity). split; [nra|].
-    apply Rmult_le_compat; lra. }
+  intros FP HP Ff Hr.
+  pose proof (bpow_gt_0 radix2 164) as B164.
+  assert (Hpr : (2 <= p * r <= bpow radix2 164)%R).
+  { split; [nra|]. replace 164 with (110 + 54) by reflexivity. rewrite bpow_plus. apply Rmult_le_compat; lra. }
   pose proof (fin_mul _ _ _ _ FP Ff) as Fg.
-  assert (Hsg : small (IZR P * r)).
-  { apply small_le with (2 ^ 80); [rewrite Rabs_pos_eq; lra | vm_compute; discriminate]. }
-  specialize (Fg Hsg). set (g := rnd (IZR P * r)) in *.
-  assert (Hg : (2 <= g <= IZR (2 ^ 80))%R).
-  { unfold g. split; [apply (rnd_ge_int _ 2); [lra | reflexivity]|].
-    change (IZR (2 ^ 80)) with (bpow radix2 80). rewrite <- (rnd_bpow 80) by lia. apply rnd_mono.
-    change (bpow radix2 80) with (IZR (2 ^ 80)). lra. }
+  specialize (Fg ltac:(apply small_bpow with 164; [lia | rewrite Rabs_pos_eq; lra])).
+  set (g := rnd (p * r)) in *.
+  assert (Hg : (2 <= g <= bpow radix2 164)%R).
+  { unfold g. split; [apply (rnd_ge_int _ 2); [lra | reflexivity] | apply rnd_le_bpow; [lia | lra]]. }
   pose proof (fin_div _ _ _ _ Fg fin_twelve ltac:(lra)) as Fh.
-  assert (Hgq : (/ 8 <= g / 12 <= IZR (2 ^ 80))%R).
-  { assert (0 < IZR (2 ^ 80))%R by (apply IZR_lt; reflexivity). lra. }
-  assert (Hsh : small (g / 12)).
-  { apply small_le with (2 ^ 80); [rewrite Rabs_pos_eq; lra | vm_compute; discriminate]. }
-  specialize (Fh Hsh). set (h := rnd (g / 12)) in *.
+  assert (Hgq : (/ 8 <= g / 12 <= bpow radix2 164)%R) by lra.
+  specialize (Fh ltac:(apply small_bpow with 164; [lia | rewrite Rabs_pos_eq; lra])).
+  set (h := rnd (g / 12)) in *.
   assert (Hh : (/ 16 <= h)%R).
   { unfold h. apply Rle_trans with (/ 8)%R; [lra|].
     replace (/ 8)%R with (bpow radix2 (-3)) by (cbn; lra). rewrite <- (rnd_bpow (-3)) by lia.
@@ -332,17 +352,21 @@ Proof.
 Qed.
 
 Theorem sigma_pos_two_runs n1 n2 T : 1 <= n1 -> 1 <= n2 ->
-  Forall (fun x => 1 <= x) T -> (2 <= length T)%nat -> zsum T = n1 + n2 -> n1 + n2 <= 2 ^ 26 ->
+  Forall (fun x => 1 <= x) T -> (2 <= length T)%nat -> zsum T = n1 + n2 -> n1 + n2 <= 2 ^ 52 ->
   b64_eq (sigma_of n1 n2 T) b64_zero = false.
 Proof.
   intros H1 H2 HT Hlen Hs HN.
   destruct (tie_correction_two_runs T HT Hlen) as [HN2 Ht]. rewrite Hs in HN2, Ht.
   rewrite sigma_of_factor.
   destruct (factor_ge_two (n1 + n2) (tie_correction T) ltac:(lia) Ht) as (r & Fr & Hr).
-  apply (sigma_tail_pos (n1 * n2) _ r); [| exact Fr |].
-  - assert (2 ^ 26 * 2 ^ 26 < 2 ^ 53) by reflexivity. nia.
-  - split; [lra|]. apply Rle_trans with (1 := proj2 Hr). apply IZR_le.
-    assert (2 ^ 26 + 1 <= 2 ^ 27) by (vm_compute; discriminate). lia.
+  assert (HP : 1 <= n1 * n2 <= 2 ^ 52 * 2 ^ 52) by nia.
+  apply (sigma_tail_pos _ (rnd (IZR (n1 * n2))) _ r); [| | exact Fr |].
+  - apply fin_of_Z. apply small_int. assert (2 ^ 52 * 2 ^ 52 <= 2 ^ 1000) by (vm_compute; discriminate). lia.
+  - split; [apply (rnd_ge_int _ 1); [apply IZR_le; lia | reflexivity]|].
+    apply rnd_le_bpow; [lia|]. change (bpow radix2 110) with (IZR (2 ^ 110)). apply IZR_le.
+    assert (2 ^ 52 * 2 ^ 52 <= 2 ^ 110) by (vm_compute; discriminate). lia.
+  - split; [lra|]. apply Rle_trans with (1 := proj2 Hr). change (bpow radix2 54) with (IZR (2 ^ 54)).
+    apply IZR_le. assert (2 ^ 52 + 1 <= 2 ^ 54) by (vm_compute; discriminate). lia.
 Qed.
 
 (** (a'), sharp range *)
@@ -432,14 +456,43 @@ Qed.
 Section Clause.
 Variable erfc : b64 -> option b64.
 
-(** errors_iff, approximate regime, on the range where the binary64 test decides
-    correctly: ErrSamplesEqual iff all pooled values are equal *)
-Theorem err_samples_equal_iff_approx x1 x2 a :
-  x1 <> [] -> x2 <> [] -> use_exact (ustat_of x1 x2) = false ->
-  zlen x1 + zlen x2 <= 330283 ->
+(** errors_iff for the model (= the repaired code): ErrSamplesEqual iff all pooled
+    values are equal, in BOTH regimes.
+    <= holds for all sizes by construction (Proofs/UTest.v, err_samples_equal_if_equal).
+    => the single-run test is exact; behind it the approximate path still tests
+    sigma == 0, which cannot fire with two or more runs while N <= 2^52
+    (sigma_pos_two_runs; float64(N), N+1, N-1 are exact up to there — a Go slice cannot
+    hold 2^52 values; the model computes sum t_k^3 and n1 n2 in unbounded integers,
+    Go's int does up to 2^63). *)
+Theorem err_samples_equal_iff x1 x2 a :
+  x1 <> [] -> x2 <> [] -> zlen x1 + zlen x2 <= 2 ^ 52 ->
   (mwu erfc x1 x2 a = RErrSamplesEqual <-> exists v, Forall (fun x => x = v) (x1 ++ x2)).
 Proof.
-  intros H1 H2 He HN. rewrite (err_samples_equal_approx erfc x1 x2 a H1 H2 He), sigma_U_of.
+  intros H1 H2 HN. split; [|now apply err_samples_equal_if_equal].
+  destruct (use_exact (ustat_of x1 x2)) eqn:He.
+  - now apply (err_samples_equal_iff_exact erfc x1 x2 a H1 H2 He).
+  - rewrite (err_samples_equal_approx erfc x1 x2 a H1 H2 He).
+    assert (L1 : 1 <= zlen x1) by (destruct x1; [congruence | unfold zlen; cbn [length]; lia]).
+    assert (L2 : 1 <= zlen x2) by (destruct x2; [congruence | unfold zlen; cbn [length]; lia]).
+    pose proof (pool_T_single x1 x2) as HS. rewrite <- us_T_pool in HS.
+    intros [Hc | Hz]; [exact (proj2 (proj1 HS Hc))|].
+    rewrite sigma_U_of in Hz.
+    change (us_n1 (ustat_of x1 x2)) with (zlen x1) in Hz. change (us_n2 (ustat_of x1 x2)) with (zlen x2) in Hz.
+    destruct (us_T_wf x1 x2) as [Hpos Hsum].
+    destruct (us_T (ustat_of x1 x2)) as [|c [|d T]] eqn:ET.
+    + cbn [zsum fold_right] in Hsum. lia.
+    + exact (proj2 (proj1 HS (ex_intro _ c eq_refl))).
+    + exfalso. rewrite sigma_pos_two_runs in Hz; try assumption; try discriminate. cbn [length]. lia.
+Qed.
+
+(** the code before hooks/fix_c11_utest_samples_equal_large.diff, approximate regime:
+    the clause holds up to a pooled size of 330283 and no further *)
+Theorem err_samples_equal_iff_approx_old x1 x2 a :
+  x1 <> [] -> x2 <> [] -> use_exact (ustat_of x1 x2) = false ->
+  zlen x1 + zlen x2 <= 330283 ->
+  (mwu_old erfc x1 x2 a = RErrSamplesEqual <-> exists v, Forall (fun x => x = v) (x1 ++ x2)).
+Proof.
+  intros H1 H2 He HN. rewrite (err_samples_equal_approx_old erfc x1 x2 a H1 H2 He), sigma_U_of.
   change (us_n1 (ustat_of x1 x2)) with (zlen x1). change (us_n2 (ustat_of x1 x2)) with (zlen x2).
   assert (L1 : 1 <= zlen x1) by (destruct x1; [congruence | unfold zlen; cbn [length]; lia]).
   assert (L2 : 1 <= zlen x2) by (destruct x2; [congruence | unfold zlen; cbn [length]; lia]).
@@ -450,70 +503,29 @@ Proof.
     + rewrite us_T_pool in ET. exact (proj2 (proj1 (pool_T_single x1 x2) (ex_intro _ c ET))).
     + exfalso. rewrite sigma_pos_two_runs in Hz; try assumption; try discriminate.
       * cbn [length]. lia.
-      * assert (330283 <= 2 ^ 26) by (vm_compute; discriminate). lia.
+      * assert (330283 <= 2 ^ 52) by (vm_compute; discriminate). lia.
   - intros Hall. rewrite (all_equal_T x1 x2 H1 Hall). now apply sigma_zero_all_equal_to_330283.
-Qed.
-
-(** the half that holds far beyond: different values are never reported equal *)
-Theorem err_samples_equal_only_if_equal x1 x2 a :
-  x1 <> [] -> x2 <> [] -> use_exact (ustat_of x1 x2) = false ->
-  zlen x1 + zlen x2 <= 2 ^ 26 ->
-  mwu erfc x1 x2 a = RErrSamplesEqual -> exists v, Forall (fun x => x = v) (x1 ++ x2).
-Proof.
-  intros H1 H2 He HN. rewrite (err_samples_equal_approx erfc x1 x2 a H1 H2 He), sigma_U_of.
-  change (us_n1 (ustat_of x1 x2)) with (zlen x1). change (us_n2 (ustat_of x1 x2)) with (zlen x2).
-  assert (L1 : 1 <= zlen x1) by (destruct x1; [congruence | unfold zlen; cbn [length]; lia]).
-  assert (L2 : 1 <= zlen x2) by (destruct x2; [congruence | unfold zlen; cbn [length]; lia]).
-  intros Hz. destruct (us_T_wf x1 x2) as [Hpos Hsum].
-  destruct (us_T (ustat_of x1 x2)) as [|c [|d T]] eqn:ET.
-  - cbn [zsum fold_right] in Hsum. lia.
-  - rewrite us_T_pool in ET. exact (proj2 (proj1 (pool_T_single x1 x2) (ex_intro _ c ET))).
-  - exfalso. rewrite sigma_pos_two_runs in Hz; try assumption; try discriminate. cbn [length]. lia.
 Qed.
 End Clause.
 
-(** ** the repaired function (hooks/fix_c11_utest_samples_equal_large.diff): a single
-    run is reported before the exact/approximate switch; then the clause holds in
-    both regimes (approximate: up to N = 2^26) *)
-Definition mwu_repaired (erfc : b64 -> option b64) (x1 x2 : list Z) (a : alt) : uresult :=
-  match x1, x2 with
-  | [], _ | _, [] => RErrSampleSize
-  | _, _ => match us_T (ustat_of x1 x2) with
-            | [_] => RErrSamplesEqual
-            | _ => mwu erfc x1 x2 a
-            end
-  end.
-
-Theorem err_samples_equal_iff_repaired erfc x1 x2 a :
-  x1 <> [] -> x2 <> [] -> zlen x1 + zlen x2 <= 2 ^ 26 ->
-  (mwu_repaired erfc x1 x2 a = RErrSamplesEqual <-> exists v, Forall (fun x => x = v) (x1 ++ x2)).
-Proof.
-  intros H1 H2 HN. unfold mwu_repaired.
-  destruct x1 as [|v1 x1]; [congruence|]. destruct x2 as [|v2 x2]; [congruence|].
-  set (X1 := v1 :: x1) in *. set (X2 := v2 :: x2) in *.
-  assert (Hne : X1 ++ X2 <> []) by (unfold X1; discriminate).
-  pose proof (pool_T_single X1 X2) as HS. rewrite <- us_T_pool in HS.
-  destruct (us_T (ustat_of X1 X2)) as [|c [|d T]] eqn:ET.
-  - split.
-    + intros Hm. destruct (use_exact (ustat_of X1 X2)) eqn:He.
-      * now apply (err_samples_equal_iff_exact erfc X1 X2 a H1 H2 He).
-      * now apply (err_samples_equal_only_if_equal erfc X1 X2 a H1 H2 He HN).
-    + intros Hall. destruct (proj2 HS (conj Hne Hall)) as [c Hc]. discriminate.
-  - split; [|reflexivity]. intros _. exact (proj2 (proj1 HS (ex_intro _ c eq_refl))).
-  - split.
-    + intros Hm. destruct (use_exact (ustat_of X1 X2)) eqn:He.
-      * now apply (err_samples_equal_iff_exact erfc X1 X2 a H1 H2 He).
-      * now apply (err_samples_equal_only_if_equal erfc X1 X2 a H1 H2 He HN).
-    + intros Hall. destruct (proj2 HS (conj Hne Hall)) as [c' Hc]. discriminate.
-Qed.
-
-(** the finding at the level of the function: 330284 equal values, no error *)
 Lemma zlen_repeat (v : Z) k : zlen (repeat v k) = Z.of_nat k.
 Proof. unfold zlen. now rewrite repeat_length. Qed.
 
+(** the model on two constant samples of the same value (used by the correspondence
+    evaluator for the large all-equal cases, which ship sizes instead of the values) *)
+Theorem mwu_all_equal_repeat erfc (v : Z) (k1 k2 : nat) a : (1 <= k1)%nat -> (1 <= k2)%nat ->
+  mwu erfc (repeat v k1) (repeat v k2) a = RErrSamplesEqual.
+Proof.
+  intros H1 H2. apply err_samples_equal_if_equal.
+  - destruct k1; [lia | discriminate].
+  - destruct k2; [lia | discriminate].
+  - exists v. apply Forall_app. split; apply Forall_forall; intros x Hx; now apply repeat_spec in Hx.
+Qed.
+
+(** the finding, about the OLD code: 330284 equal values, no error *)
 Theorem err_samples_equal_large_refuted :
   exists x1 x2, x1 <> [] /\ x2 <> [] /\ (exists v, Forall (fun x => x = v) (x1 ++ x2)) /\
-    forall erfc a, mwu erfc x1 x2 a <> RErrSamplesEqual.
+    forall erfc a, mwu_old erfc x1 x2 a <> RErrSamplesEqual.
 Proof.
   set (k := Z.to_nat 165142). exists (repeat 7 k), (repeat 7 k).
   assert (Hk : Z.of_nat k = 165142) by (unfold k; lia).
@@ -525,9 +537,14 @@ Proof.
   assert (He : use_exact (ustat_of (repeat 7 k) (repeat 7 k)) = false).
   { unfold use_exact. change (us_n1 (ustat_of (repeat 7 k) (repeat 7 k))) with (zlen (repeat 7 k)).
     rewrite zlen_repeat, Hk. cbn. now rewrite !andb_false_r. }
-  rewrite (err_samples_equal_approx erfc _ _ a Hne Hne He), sigma_U_of, (all_equal_T _ _ Hne Hall).
+  rewrite (err_samples_equal_approx_old erfc _ _ a Hne Hne He), sigma_U_of, (all_equal_T _ _ Hne Hall).
   change (us_n1 (ustat_of (repeat 7 k) (repeat 7 k))) with (zlen (repeat 7 k)).
   change (us_n2 (ustat_of (repeat 7 k) (repeat 7 k))) with (zlen (repeat 7 k)).
   rewrite zlen_repeat, Hk. change (165142 + 165142) with 330284.
   rewrite (proj1 sigma_all_equal_refuted). discriminate.
 Qed.
+
+(** ... and the repaired code on the same input *)
+Theorem err_samples_equal_large_repaired erfc a :
+  mwu erfc (repeat 7 (Z.to_nat 165142)) (repeat 7 (Z.to_nat 165142)) a = RErrSamplesEqual.
+Proof. apply mwu_all_equal_repeat; lia. Qed.
